@@ -644,9 +644,14 @@ impl Model {
             }
         }
         let must_succeed = ok_int && ok_size;
-        let prev = self.content.get(&addr).cloned();
+        let mut prev = self.content.get(&addr).cloned();
         let p = reffmt::content_path(&ctx.cache, addr.0, &addr.1);
         let now = obs_to_cstate(observe(&p));
+        // an existing link at this very address reads whatever its (just rewritten) target holds
+        let is_link = |c: &Option<CState>| matches!(c, Some(CState::Data { symlink: true, .. }) | Some(CState::Dangling));
+        if is_link(&prev) && is_link(&now) {
+            prev = now.clone();
+        }
         match out {
             Out::Int(x) => {
                 if !(must_succeed || (undecided_int && ok_size)) {
